@@ -194,7 +194,7 @@ func (re *refExec) execSet(n *Node, objType string, sels []*Sel, path pathT) map
 		ck := CallKey{n.ID, f0.Name}
 		re.ex.Calls[ck.String()]++
 		p := path.with(g.key)
-		if fk := re.faults[ck]; fk != NoFault && fk != FaultNth {
+		if fk := re.faults[ck]; fk != NoFault && fk != FaultNth && fk != FaultBadLeaf {
 			out[g.key] = nil
 			re.ex.ErrPaths = append(re.ex.ErrPaths, PathString(p))
 			if fk == FaultGroup {
@@ -207,6 +207,22 @@ func (re *refExec) execSet(n *Node, objType string, sels []*Sel, path pathT) map
 			sub = append(sub, f.Sels...)
 		}
 		val := fieldValue(n, f0.Name, args)
+		if re.faults[ck] == FaultBadLeaf && BadLeafFields[f0.Name] {
+			// the value cannot be represented in the declared type: null at that position and one error for it
+			switch tv := val.(type) {
+			case int:
+				val = nil
+				re.ex.ErrPaths = append(re.ex.ErrPaths, PathString(p))
+			case []interface{}:
+				if len(tv) > 0 {
+					idx := NthFailIndex(len(tv))
+					cp := append([]interface{}{}, tv...)
+					cp[idx] = nil
+					val = cp
+					re.ex.ErrPaths = append(re.ex.ErrPaths, PathString(p.with(idx)))
+				}
+			}
+		}
 		if re.faults[ck] == FaultNth {
 			// the accessor of one element fails: that element is null with one error, the others are untouched
 			if l, ok := val.([]interface{}); ok && len(l) > 0 {
